@@ -4,8 +4,8 @@ from vlib import std, hbuild
 
 PID = "C55"
 META = {
-    "text": "TEXT-PLACEHOLDER",
-    "note": "NOTE-PLACEHOLDER",
+    "text": "Theorems (Properties_C55.v, 12, closed under the global context) hold for ANY number of processes, ANY scripts over openForWriting(+setKey)/openForWritingAt/append-a-slice/startAppending/closeForWriting/abortWriting/openForReading/chain walk/closeForReading/closeForReadingAndFreeIdle/freeEntry/freeEntryByKey on a map of any size and ANY interleaving of their single atomic operations (those inside the ReadWriteLock methods included): (1) composition with C54: every process takes part in the lock of every anchor as two RwlockModel processes (its open entry; its freeEntry/freeEntryByKey calls) and the C54 counting invariant holds per anchor in every reachable state, so no assert() about writing()/reading() can fail; (2) never two writers (exclusive, appending or aborting) on one entry; (3) a process that holds an entry open for reading holds it under the requested key (the anchor's key equals the key it asked for, in every later state until it closes), and any writer coexisting with it has called startAppending (or is that appending writer inside abortWriting, about to mark the entry); no freeEntry/freeEntryByKey call holds the entry exclusively meanwhile; (4) a successful openForReading saw waitingToBeFreed = false and the requested key at the step at which it succeeded; the key of an anchor changes and a set waitingToBeFreed mark disappears only in steps of an exclusive holder (rewind() while freeing, setKey() of the creating writer), hence never while a reader holds the entry; (5) a slice is returned to the pool only inside freeChainAt() of an activity holding exclusively the anchor whose chain it walks, hence never through the chain of an entry that is open for reading [PARTIAL: that chains of different entries are disjoint is not proved; the oracle checks slice ownership on every explored schedule]; (6) when every process has closed what it opened, every anchor's lock is idle and lockExclusive/lockShared/lockHeaders succeed again. The model is tied to the code by running the extracted model and the real StoreMap.cc + ReadWriteLock.cc, compiled unmodified from the working tree against a scheduler-controlled std::atomic (harness/sched_atomic.h), on the same scripts and schedules (a context switch is possible at every atomic operation) and diffing events, final anchors/slices/counters/pool and a reuse probe; the oracle independently tracks holders, entry incarnations, delete requests and slice ownership from the implementation's events.",
+    "note": "Trusted: Coq kernel, extraction, harness/sched_atomic.h + h_storemap.cc (cooperative scheduler, heap-backed Ipc::Mem::Segment, slice pool, client protocol: one open entry per process, only legal calls, valid filenos), sequentially consistent atomics, plain accesses (key words) executed with the preceding atomic operation, uint32/int32 counters as unbounded integers, Store::Root().markedForDeletion() = false in setKey(), Config.paranoid_hit_validation = 0 (validateHit never runs). NOT modelled (so not covered by the theorems nor by the runs): openForUpdating/closeForUpdating/abortUpdating (header updates, splicing, fileNos relocation), openOrCreateForReading, switchWritingToReading, forgetWritingEntry, purgeOne. Not proved: disjointness of slice chains (theorem C55_slices_not_freed_while_read_partial says what is missing), absence of the data assertions validSlice()/assert(s.empty()) (model state Stuck*; the oracle reports any assertion as a violation), termination of every operation (runner answer FUEL is reported by the oracle). Quirks of the code seen while modelling (outside the property, reproduced in corpus/C55/regress.txt): freeEntry()/freeEntryByKey() on a never-used anchor drive anchors->count negative; an entry written under the all-zero key is empty() for ever and its slices are never returned by freeChain(); a freeEntry() mark placed between openForWriting() and the writer's setKey() is erased by setKey() although freeEntry() answered true. StoremapModel.v is validated against the code only on the generated schedules. Extra proof file: coq/StoremapLock.v.",
     "technique": "Coq proof (inductive invariants over all interleavings of an unbounded number of processes: the C54 counting "
                  "invariant re-established per anchor by composition, plus Owicki-Gries style data invariants) + extracted-model "
                  "differential correspondence under a scheduler-controlled std::atomic",
@@ -37,7 +37,7 @@ NMAP = 4
 WR = ["W1+2w", "W1+2+3w", "W1+1A+2w", "W1+1A+2+3w", "W1+1a", "W1+1A+2a", "W1w", "W1Aw", "W1a", "W5+4w", "Wa+1w", "W2+1w",
       "W2+1A+1w", "X1+1w", "X5+1w", "W1+1+2+3a", "W1F1w", "W1+1K1w", "W1+1AF1+1w", "W1+1AK1a", "W1", "W1+1A", "W1+1"]
 RD = ["R1Lr", "R1LLr", "R1Lf", "R1r", "R1f", "R1LF1Lr", "R1LK1Lr", "R5Lr", "RaLr", "R2Lr", "R2Lf", "R1LLLr", "R1L", "R1",
-      "R1LrR1Lr", "R1LfR1Lr"]
+      "R1LrR1Lr", "R1LfR1Lr", "R1LrR1LrR1Lr", "R1LrR1LLrR1LfR1Lr", "R2LrR2Lr"]
 DL = ["F1", "K1", "F1F1", "K5", "Ka", "F2", "K2", "F1K1", "F0", "F3"]
 PAIRS = [("W1+1w", "R1Lr"), ("W1+1A+2w", "R1LLr"), ("W1+1A+2a", "R1LLr"), ("W1+1w", "W1+2w"), ("W1+1w", "W5+2w"),
          ("W1+1wR1Lr", "F1"), ("W1+1wR1Lr", "K1"), ("W1+1wR1Lf", "R1Lf"), ("W1+1wR1Lr", "W1+2w"), ("W1+1a", "R1Lr"),
@@ -77,20 +77,26 @@ def est_steps(s):
 def rand_schedule(rng, n, scripts):
     total = sum(est_steps(s) for s in scripts)
     style = rng.random()
-    if style < 0.08:
+    if style < 0.06:
         return ""
     want = rng.choice([total // 4, total // 2, total, total])
     out = []
-    if style < 0.5:    # bursts
+    if style < 0.35:    # bursts
         while len(out) < want:
             t = rng.randrange(n)
             out.extend([t] * rng.choice([1, 1, 1, 2, 2, 3, 4, 5, 6, 8, 12, 20]))
-    elif style < 0.75:  # uniform
+    elif style < 0.55:  # uniform
         out = [rng.randrange(n) for _ in range(want)]
+    elif style < 0.8:   # long turns: whole operations of one thread at a time (readers find complete entries)
+        while len(out) < want:
+            t = rng.randrange(n)
+            out.extend([t] * rng.choice([15, 25, 30, 40, 60, 90]))
+            if rng.random() < 0.5:
+                out.extend(rng.randrange(n) for _ in range(rng.randrange(1, 8)))
     else:               # one thread runs far ahead, then the others
         t = rng.randrange(n)
         out = [t] * rng.randrange(1, 60) + [rng.randrange(n) for _ in range(want)]
-    return "".join(str(t) for t in out[:want + 60])
+    return "".join(str(t) for t in out[:want + 90])
 
 
 def mk(scripts, sched, nmap=NMAP):
@@ -116,10 +122,22 @@ def gen_cases(rng, n):
             for _ in range(rng.randrange(1, 6)):
                 s += str(rng.randrange(2)) * rng.randrange(1, 25)
             cases.append(mk(list(scr), s))
-    for _ in range(n):
+    for i in range(n):
         nt = rng.choice([1, 2, 2, 2, 2, 3, 3, 3, 4])
-        scripts = [rand_script(rng) for _ in range(nt)]
         nmap = rng.choice([4, 4, 4, 4, 2, 3])
+        if i % 2 == 0 and nt > 1:
+            # staged: thread 0 creates a complete (or appending) entry first, the others read / delete / overwrite it
+            w = rng.choice(["W1+2w", "W1+2+3w", "W1+1A+2w", "W1+1A+2+3w", "W1+1A+2", "W1+1+2w", "W1+3A"])
+            scripts = [w + (rng.choice(RD + DL + [""]) if rng.random() < 0.5 else "")]
+            for _ in range(nt - 1):
+                k = rng.random()
+                scripts.append("".join(rng.choice(RD) for _ in range(rng.choice([1, 1, 2, 3]))) if k < 0.7
+                               else rng.choice(RD) + rng.choice(DL) + rng.choice(RD) if k < 0.85 else rand_script(rng))
+            lead = rng.choice([20, 27, 30, 36, 36, 40, 45, 50])
+            scripts = [re.sub(r"([FP])(\d)", lambda m: m.group(1) + str(int(m.group(2)) % nmap), s) for s in scripts]
+            cases.append(mk(scripts, "0" * lead + rand_schedule(rng, nt, scripts), nmap))
+            continue
+        scripts = [rand_script(rng) for _ in range(nt)]
         # anchors named by F<f> / P<f> exist (callers never pass an invalid fileno)
         scripts = [re.sub(r"([FP])(\d)", lambda m: m.group(1) + str(int(m.group(2)) % nmap), s) for s in scripts]
         cases.append(mk(scripts, rand_schedule(rng, nt, scripts), nmap))
@@ -405,7 +423,7 @@ def run(res, tier):
                        "pool and the client protocol")
     std.run_standard(res, PID, tier, area="storemap", build_impl=impl, gen_cases=gen_cases, oracle=oracle,
                      corr_name="StoremapModel vs src/ipc/StoreMap.cc + ReadWriteLock.cc under sched_atomic.h",
-                     n_quick=9000, n_thorough=120000, seed_salt=55, mutate=mutate,
+                     n_quick=8000, n_thorough=100000, seed_salt=55, mutate=mutate,
                      kind_fn=kind, nontrivial_fn=lambda c, o: overlapped(o))
     res.extra["outcomes"] = dict(STATS)
 
